@@ -182,7 +182,7 @@ fn stress(path: &str, names: &[String], contents: &[Vec<u8>], threads: usize, it
         let shared = shared.clone();
         let bad = bad.clone();
         hs.push(std::thread::spawn(move || {
-            let mut x = seed.wrapping_mul(6364136223846793005).wrapping_add(t as u64 * 1442695040888963407 + 1);
+            let mut x = seed.wrapping_mul(6364136223846793005).wrapping_add((t as u64).wrapping_mul(1442695040888963407).wrapping_add(1));
             let mut rnd = move |m: u64| { x ^= x << 13; x ^= x >> 7; x ^= x << 17; x % m.max(1) };
             let mut ops = 0u64;
             for _ in 0..iters {
